@@ -1,6 +1,44 @@
+import Agd.Driver.C01
+import Agd.Driver.C02
+import Agd.Driver.C03
+import Agd.Driver.C04
+import Agd.Driver.C05
+import Agd.Driver.C06
+import Agd.Driver.C07
+import Agd.Driver.C08
 import Agd.Driver.C09
+import Agd.Driver.C10
+import Agd.Driver.C11
+import Agd.Driver.C12
+import Agd.Driver.C13
+import Agd.Driver.C14
+import Agd.Driver.C15
+import Agd.Driver.C16
+import Agd.Driver.C17
+import Agd.Driver.C18
+import Agd.Driver.C19
+import Agd.Driver.C20
 
 def main (args : List String) : IO UInt32 := do
   match args with
+  | ["C01"] => Agd.Driver.C01.main; return 0
+  | ["C02"] => Agd.Driver.C02.main; return 0
+  | ["C03"] => Agd.Driver.C03.main; return 0
+  | ["C04"] => Agd.Driver.C04.main; return 0
+  | ["C05"] => Agd.Driver.C05.main; return 0
+  | ["C06"] => Agd.Driver.C06.main; return 0
+  | ["C07"] => Agd.Driver.C07.main; return 0
+  | ["C08"] => Agd.Driver.C08.main; return 0
   | ["C09"] => Agd.Driver.C09.main; return 0
+  | ["C10"] => Agd.Driver.C10.main; return 0
+  | ["C11"] => Agd.Driver.C11.main; return 0
+  | ["C12"] => Agd.Driver.C12.main; return 0
+  | ["C13"] => Agd.Driver.C13.main; return 0
+  | ["C14"] => Agd.Driver.C14.main; return 0
+  | ["C15"] => Agd.Driver.C15.main; return 0
+  | ["C16"] => Agd.Driver.C16.main; return 0
+  | ["C17"] => Agd.Driver.C17.main; return 0
+  | ["C18"] => Agd.Driver.C18.main; return 0
+  | ["C19"] => Agd.Driver.C19.main; return 0
+  | ["C20"] => Agd.Driver.C20.main; return 0
   | _ => IO.eprintln "usage: agdmodel <property>"; return 2
